@@ -12,7 +12,8 @@ from vlib.coqlit import *
 
 ID = "C16"
 COQ_PROPS = "Props/C16.v"
-THEOREMS = []
+THEOREMS = ["C16_roundtrip", "C16_blank", "C16_malformed", "C16_prot", "C16_dict_set",
+            "C16_int_dec", "C16_int_hex", "C16_float_repr", "C16_str_single_quote", "C16_bare_1e5_is_hex"]
 ALLOWED_AXIOMS = []
 TRUSTED_BASE = [
     "Common/PyNum.v py_int / py_int16 / py_float / py_strip as models of CPython int(s) / int(s,16) / float(s) / str.strip "
